@@ -180,6 +180,10 @@ func c161(c *an.Ctx, p *an.Prog) {
 					if e2, _ := cc.Args[1].ConstString(); e2 == ext {
 						ok = true
 					}
+					// the extension just computed from the same name (known to equal ext on this path)
+					if ec := cc.Args[1]; ec.IsCallTo("path/filepath.Ext") && ec.Op == "call" && ec.Args[0].K == cc.Args[0].K {
+						ok = true
+					}
 				}
 				if !ok {
 					bad = append(bad, "user name is not the file name minus its own extension on path "+s.BlockPath()+": "+userT.K)
@@ -263,6 +267,13 @@ func c162(c *an.Ctx, p *an.Prog) {
 				if a.Op == "==" && a.A.Op == "call" && strings.HasSuffix(a.A.Aux, ".Name") && a.B.IsConst(`".tmp"`) {
 					isTmp = true
 				}
+			}
+			// a returned condition is true exactly when it holds: `return e.IsDir()` under the other facts is the same
+			// as `if e.IsDir() { return true }; return false`
+			if r := ret.Args[0]; r.Op == "call" && strings.HasSuffix(r.Aux, ".IsDir") {
+				isDir = true
+			} else if r.Op == "binop" && r.Aux == "==" && r.Args[0].Op == "call" && strings.HasSuffix(r.Args[0].Aux, ".Name") && r.Args[1].IsConst(`".tmp"`) {
+				isTmp = true
 			}
 			if !(lenEq == 0 || (lenEq == 1 && isDir && isTmp)) {
 				bad = append(bad, "returns true on path "+s.BlockPath()+" ["+s.FactsString()+"]")
